@@ -3,6 +3,7 @@ package main
 import (
 	"fmt"
 	"regexp"
+	"sort"
 	"strings"
 )
 
@@ -77,6 +78,28 @@ func checkC10(c *Check) {
 				}
 				c.Ob("bytes-twin/"+r.role, name, as == bs, posStr(g.co.Fset, b.Decl.Pos()), d)
 			}
+			// JSON twins: the same sequence of lexer operations (with their modes), primitive codecs and nested codecs
+			for _, role := range []string{"ReadJSONGeneral", "WriteJSONOpt"} {
+				a, b := base[role], twin[role]
+				if a == nil || b == nil {
+					continue
+				}
+				// compared as multisets: the twins may check the lexer state at different points of the same loop body
+				as, bs := jsonEventSeq(g, a), jsonEventSeq(g, b)
+				sort.Strings(as)
+				sort.Strings(bs)
+				d := fmt.Sprintf("%d events", len(as))
+				same := len(as) == len(bs)
+				for i := 0; same && i < len(as); i++ {
+					if as[i] != bs[i] {
+						same = false
+					}
+				}
+				if !same {
+					d = firstDiff(strings.Join(as, "\n"), strings.Join(bs, "\n")) + " (left: string version, right: bytes version)"
+				}
+				c.Ob("bytes-twin/"+role, name, same, posStr(g.co.Fset, b.Decl.Pos()), d)
+			}
 			// slot tables of TL2 twins
 			if g.co.Spec.TL2 && base["InternalWriteTL2"] != nil && twin["InternalWriteTL2"] != nil {
 				aS, _ := g.writerSlots(base["InternalWriteTL2"])
@@ -119,6 +142,8 @@ func checkC10(c *Check) {
 	c.Floor("bytes-twin/InternalReadTL2", 15)
 	c.Floor("bytes-twin/InternalWriteTL2", 15)
 	c.Floor("basictl-clone", 6)
+	c.Floor("bytes-twin/ReadJSONGeneral", 15)
+	c.Floor("bytes-twin/WriteJSONOpt", 15)
 }
 
 // cloneDump renders the IR with the declared string↔[]byte substitution applied.
@@ -182,4 +207,39 @@ func (g *genCtx) decodedElementsKept(c *Check, rule, construct string, fi *FuncI
 		}
 	}
 	visit(l)
+}
+
+var jsonEventRx = regexp.MustCompile(`Lexer\.(\w+) recv=\w+\(([^)]*)\)|\.(UnsafeFieldName|UnsafeString|UnsafeBytes|Raw|Bool)\((\w*)\)|(Json2Read\w+)|basictl\.(JSONWrite\w+|JSONAddCommaIfNeeded)|call (\w+?)\.?(ReadJSONGeneral|WriteJSONOpt)\b|call append recv=\(buf, ("(?:[^"\\]|\\.)*"|#\d+)\)|call (Error\w+)`)
+
+// jsonEventSeq: the order-preserving list of JSON-relevant events of a reader/writer, with storage
+// details (map vs slice, string vs []byte) erased: lexer calls with their mode arguments, primitive
+// codecs and nested codecs with the Bytes suffix dropped, constant fragments, error constructors.
+func jsonEventSeq(g *genCtx, fi *FuncInfo) []string {
+	var out []string
+	for _, m := range jsonEventRx.FindAllStringSubmatch(blockText(g.ir(fi).Body), -1) {
+		ev := ""
+		switch {
+		case m[1] != "":
+			ev = "lexer." + m[1] + "(" + m[2] + ")"
+		case m[3] != "":
+			ev = "lexer." + m[3] + "(" + m[4] + ")"
+		case m[5] != "":
+			ev = strings.TrimSuffix(m[5], "Bytes")
+		case m[6] != "":
+			ev = strings.TrimSuffix(m[6], "Bytes")
+		case m[8] != "":
+			ev = "nested " + strings.TrimSuffix(strings.TrimSuffix(m[7], "Bytes"), "Bytes") + "." + m[8]
+		case m[9] != "":
+			ev = "lit " + m[9]
+		case m[10] != "":
+			ev = "" // error constructors are checks, not consumption
+		}
+		if ev == "lexer.Ok()" || ev == "lexer.Error()" {
+			ev = ""
+		}
+		if ev != "" {
+			out = append(out, ev)
+		}
+	}
+	return out
 }
